@@ -132,6 +132,10 @@ func (o *orbitDBAccessController) CanAppend(entry logac.LogEntry, p identityprov
 
 	for _, k := range access {
 		if k == identity.ID || k == "*" {
+			if err := accesscontroller.VerifyEntryIdentity(entry, p); err != nil {
+				return err
+			}
+
 			return p.VerifyIdentity(identity)
 		}
 	}
